@@ -1,3 +1,189 @@
 import GnpyModel
-/- Property theorems for C11 (only the property theorems and their non-vacuity examples live here;
-   helper lemmas go to GnpyProofs/Lemmas). -/
+import GnpyProofs.Lemmas.Route
+/- Property theorems for C11 — every computed route is a real, loop-free, constraint-respecting shortest path.
+   Model: GnpyModel/Route.lean.  networkx is not modelled: the theorems establish that the ORACLE (`bestRoute`,
+   `decideRoute`) and the CHECKER (`checkRoute`) the harness runs against the implementation mean exactly what the
+   property says, for every finite weighted digraph, every source/destination and every include list. -/
+namespace Gnpy.Route
+
+/-- **enumeration is sound**: everything `simplePaths` lists is a loop-free walk from `s` to `t` -/
+theorem simplePaths_sound (g : Graph) (s t : V) (p : List V) (h : p ∈ simplePaths g s t) :
+    IsSimplePath g s t [] p :=
+  pathsFrom_sound g t _ s [] p h
+
+/-- **enumeration is complete**: every loop-free walk from `s` to `t` of a well-formed graph is listed -/
+theorem simplePaths_complete (g : Graph) (hg : g.WF) (s t : V) (p : List V) (h : IsSimplePath g s t [] p) :
+    p ∈ simplePaths g s t :=
+  pathsFrom_complete g t _ s [] p h (simple_length_le g hg p h.2.2.1 h.2.2.2.1)
+
+theorem simplePaths_iff (g : Graph) (hg : g.WF) (s t : V) (p : List V) :
+    p ∈ simplePaths g s t ↔ IsSimplePath g s t [] p :=
+  ⟨simplePaths_sound g s t p, simplePaths_complete g hg s t p⟩
+
+/-- `validPaths` are exactly the routes of the property statement -/
+theorem validPaths_iff (g : Graph) (hg : g.WF) (s t : V) (inc p : List V) :
+    p ∈ validPaths g s t inc ↔ IsRoute g s t inc p := by
+  unfold validPaths IsRoute
+  rw [List.mem_filter, simplePaths_iff g hg, List.isSublist_iff_sublist]
+  unfold IsSimplePath
+  constructor
+  · rintro ⟨⟨h1, h2, h3, h4, _⟩, h5⟩; exact ⟨h1, h2, h3, h4, h5⟩
+  · rintro ⟨h1, h2, h3, h4, h5⟩; exact ⟨⟨h1, h2, h3, h4, by simp⟩, h5⟩
+
+/-- **the checker decides the route predicate**: the Boolean run on the implementation's path is `true` exactly when
+the path starts at the source, ends at the destination, follows existing directed links, visits no element twice and
+crosses the include list in order -/
+theorem checkRoute_iff (g : Graph) (s t : V) (inc p : List V) :
+    checkRoute g s t inc p = true ↔ IsRoute g s t inc p := by
+  unfold checkRoute IsRoute
+  simp only [Bool.and_eq_true, beq_iff_eq, isWalkB_iff, nodupB_iff, List.isSublist_iff_sublist]
+  tauto
+
+/-- **the oracle's answer is a route** -/
+theorem bestRoute_valid (g : Graph) (hg : g.WF) (s t : V) (inc p : List V) (h : bestRoute g s t inc = some p) :
+    IsRoute g s t inc p :=
+  (validPaths_iff g hg s t inc p).1 (argmin_mem _ _ _ h)
+
+/-- **the oracle's answer is lightest**: no route crossing the include list weighs less -/
+theorem bestRoute_minimal (g : Graph) (hg : g.WF) (s t : V) (inc p : List V) (h : bestRoute g s t inc = some p) :
+    ∀ q, IsRoute g s t inc q → pathWeight g p ≤ pathWeight g q :=
+  fun q hq => argmin_le _ _ _ h q ((validPaths_iff g hg s t inc q).2 hq)
+
+/-- **the oracle answers `none` exactly when no route exists** -/
+theorem bestRoute_none_iff (g : Graph) (hg : g.WF) (s t : V) (inc : List V) :
+    bestRoute g s t inc = none ↔ ¬ ∃ q, IsRoute g s t inc q := by
+  unfold bestRoute
+  rw [argmin_none_iff]
+  constructor
+  · rintro h ⟨q, hq⟩
+    have := (validPaths_iff g hg s t inc q).2 hq
+    rw [h] at this; simp at this
+  · intro h
+    apply List.eq_nil_iff_forall_not_mem.2
+    intro q hq
+    exact h ⟨q, (validPaths_iff g hg s t inc q).1 hq⟩
+
+/-- **weight-minimal = length-minimal.**  The code minimises `weight` (fibre metres on fibre edges, 0.01 on every other
+edge).  When every fibre length is a multiple of 1 km, every other edge carries at most one 0.01 unit and paths have
+fewer than 10⁵ hops, a path of minimal weight has minimal total fibre length: the pseudo-weights cannot change which
+fibre length wins.  (The generators respect the hypothesis, so the oracle never demands more than the property.) -/
+theorem weight_min_is_length_min (g : Graph) (hkm : ∀ u v, 1000 ∣ g.len u v) (hps : ∀ u v, g.pseudo u v ≤ 1)
+    (p q : List V) (hq : q.length ≤ 100000) (h : pathWeight g p ≤ pathWeight g q) :
+    pathLen g p ≤ pathLen g q := by
+  rw [pathWeight_eq, pathWeight_eq] at h
+  obtain ⟨a, ha⟩ := pathSum_dvd 1000 g.len hkm p
+  obtain ⟨b, hb⟩ := pathSum_dvd 1000 g.len hkm q
+  have hpq := pathSum_le_length g.pseudo hps q
+  unfold pathLen pathPseudo at *
+  omega
+
+/-- **C11, optimality**: the oracle's route has minimal total fibre length among all routes crossing the include list -/
+theorem bestRoute_min_length (g : Graph) (hg : g.WF) (hkm : ∀ u v, 1000 ∣ g.len u v) (hps : ∀ u v, g.pseudo u v ≤ 1)
+    (hn : g.n < 100000) (s t : V) (inc p : List V) (h : bestRoute g s t inc = some p) :
+    ∀ q, IsRoute g s t inc q → pathLen g p ≤ pathLen g q := by
+  intro q hq
+  have hl := simple_length_le g hg q hq.2.2.1 hq.2.2.2.1
+  exact weight_min_is_length_min g hkm hps p q (by omega) (bestRoute_minimal g hg s t inc p h q hq)
+
+/-- any two routes of minimal weight have the same fibre length: whatever tie-break the library applies, the fibre
+length the harness compares is determined -/
+theorem min_length_unique (g : Graph) (hkm : ∀ u v, 1000 ∣ g.len u v) (hps : ∀ u v, g.pseudo u v ≤ 1)
+    (p q : List V) (hp : p.length ≤ 100000) (hq : q.length ≤ 100000) (h : pathWeight g p = pathWeight g q) :
+    pathLen g p = pathLen g q :=
+  Nat.le_antisymm (weight_min_is_length_min g hkm hps p q hq (Nat.le_of_eq h))
+    (weight_min_is_length_min g hkm hps q p hp (Nat.le_of_eq h.symm))
+
+/-! ### the decision wrapper of `compute_constrained_path` -/
+
+/-- **C11, satisfiable constraint**: when a route crossing the include list exists (and the list is not an explicit
+route), the decision is such a route, of minimal weight -/
+theorem decide_constrained (g : Graph) (hg : g.WF) (s t : V) (inc : List V) (strict : Bool)
+    (hex : ∃ q, IsRoute g s t inc q) :
+    ∃ p, decideRoute g s t inc strict none = .constrained p ∧ IsRoute g s t inc p ∧
+      ∀ q, IsRoute g s t inc q → pathWeight g p ≤ pathWeight g q := by
+  obtain ⟨q, hq⟩ := hex
+  have h0 : bestRoute g s t [] ≠ none := by
+    rw [Ne, bestRoute_none_iff g hg]
+    exact fun h => h ⟨q, hq.1, hq.2.1, hq.2.2.1, hq.2.2.2.1, List.nil_sublist _⟩
+  have h1 : bestRoute g s t inc ≠ none := by
+    rw [Ne, bestRoute_none_iff g hg]; exact fun h => h ⟨q, hq⟩
+  obtain ⟨p0, hp0⟩ := Option.ne_none_iff_exists'.1 h0
+  obtain ⟨p, hp⟩ := Option.ne_none_iff_exists'.1 h1
+  exact ⟨p, by simp [decideRoute, hp0, hp], bestRoute_valid g hg s t inc p hp, bestRoute_minimal g hg s t inc p hp⟩
+
+/-- **C11, STRICT**: a STRICT include list that no route can honour blocks the request with
+`NO_PATH_WITH_CONSTRAINT` (the destination being reachable at all) -/
+theorem decide_strict_blocked (g : Graph) (hg : g.WF) (s t : V) (inc : List V)
+    (hreach : ∃ q, IsRoute g s t [] q) (hno : ¬ ∃ q, IsRoute g s t inc q) :
+    decideRoute g s t inc true none = .noPathWithConstraint := by
+  have h0 : bestRoute g s t [] ≠ none := by rw [Ne, bestRoute_none_iff g hg]; exact fun h => h hreach
+  obtain ⟨p0, hp0⟩ := Option.ne_none_iff_exists'.1 h0
+  have h1 := (bestRoute_none_iff g hg s t inc).2 hno
+  simp [decideRoute, hp0, h1]
+
+/-- **C11, LOOSE**: when only LOOSE hops cannot be honoured they are dropped and the decision is the unconstrained
+shortest path -/
+theorem decide_loose_dropped (g : Graph) (hg : g.WF) (s t : V) (inc : List V)
+    (hreach : ∃ q, IsRoute g s t [] q) (hno : ¬ ∃ q, IsRoute g s t inc q) :
+    ∃ p, decideRoute g s t inc false none = .unconstrained p ∧ IsRoute g s t [] p ∧
+      ∀ q, IsRoute g s t [] q → pathWeight g p ≤ pathWeight g q := by
+  have h0 : bestRoute g s t [] ≠ none := by rw [Ne, bestRoute_none_iff g hg]; exact fun h => h hreach
+  obtain ⟨p0, hp0⟩ := Option.ne_none_iff_exists'.1 h0
+  have h1 := (bestRoute_none_iff g hg s t inc).2 hno
+  exact ⟨p0, by simp [decideRoute, hp0, h1], bestRoute_valid g hg s t [] p0 hp0, bestRoute_minimal g hg s t [] p0 hp0⟩
+
+/-- **C11, unreachable destination**: blocked with `NO_PATH`, whatever the include list -/
+theorem decide_noPath (g : Graph) (hg : g.WF) (s t : V) (inc : List V) (strict : Bool)
+    (hno : ¬ ∃ q, IsRoute g s t [] q) :
+    decideRoute g s t inc strict none = .noPath := by
+  have h0 := (bestRoute_none_iff g hg s t []).2 hno
+  simp [decideRoute, h0]
+
+/-- the decision is total and exclusive: a request is blocked iff no acceptable route exists -/
+theorem decide_blocked_iff (g : Graph) (hg : g.WF) (s t : V) (inc : List V) (strict : Bool) :
+    (decideRoute g s t inc strict none = .noPath ∨ decideRoute g s t inc strict none = .noPathWithConstraint) ↔
+      ((¬ ∃ q, IsRoute g s t [] q) ∨ (strict = true ∧ ¬ ∃ q, IsRoute g s t inc q)) := by
+  by_cases hreach : ∃ q, IsRoute g s t [] q
+  · by_cases hinc : ∃ q, IsRoute g s t inc q
+    · obtain ⟨p, hp, _⟩ := decide_constrained g hg s t inc strict hinc
+      simp [hp, hreach, hinc]
+    · cases strict with
+      | true => simp [decide_strict_blocked g hg s t inc hreach hinc, hinc]
+      | false =>
+        obtain ⟨p, hp, _⟩ := decide_loose_dropped g hg s t inc hreach hinc
+        simp [hp, hreach]
+  · simp [decide_noPath g hg s t inc strict hreach, hreach]
+
+/-! ### non-vacuity: a 4-node diamond 0→1→3, 0→2→3 (fibre 80 km / 50 km + 50 km) -/
+
+def demoG : Graph where
+  n := 4
+  succ := fun u => if u = 0 then [1, 2] else if u = 1 then [3] else if u = 2 then [3] else []
+  len := fun u _ => if u = 1 then 80000 else if u = 2 then 50000 else 0
+  pseudo := fun u _ => if u = 0 then 1 else 0
+
+example : demoG.WF := by
+  intro u v h
+  have hn : demoG.n = 4 := rfl
+  rw [hn]
+  simp only [demoG] at h
+  by_cases h0 : u = 0
+  · subst h0; simp at h; rcases h with rfl | rfl <;> simp
+  · by_cases h1 : u = 1
+    · subst h1; simp at h; subst h; simp
+    · by_cases h2 : u = 2
+      · subst h2; simp at h; subst h; simp
+      · simp [h0, h1, h2] at h
+
+example : simplePaths demoG 0 3 = [[0, 1, 3], [0, 2, 3]] := by decide
+example : bestRoute demoG 0 3 [] = some [0, 2, 3] := by decide
+example : bestRoute demoG 0 3 [1] = some [0, 1, 3] := by decide
+example : bestRoute demoG 0 3 [2, 1] = none := by decide
+example : decideRoute demoG 0 3 [2, 1] true none = .noPathWithConstraint := by decide
+example : decideRoute demoG 0 3 [2, 1] false none = .unconstrained [0, 2, 3] := by decide
+example : decideRoute demoG 3 0 [] false none = .noPath := by decide
+example : checkRoute demoG 0 3 [1] [0, 1, 3] = true ∧ checkRoute demoG 0 3 [1] [0, 2, 3] = false := by decide
+example : (∀ u v, 1000 ∣ demoG.len u v) ∧ (∀ u v, demoG.pseudo u v ≤ 1) := by
+  constructor <;> intro u v <;> simp only [demoG] <;> split <;> (try split) <;> omega
+
+end Gnpy.Route
